@@ -67,6 +67,20 @@ class OutputFixPass(ir.passes.InPlacePass):
         return ir.passes.PassResult(model, modified=modified)
 
 
+def _unique_value_name(graph: ir.Graph | ir.Function, preferred_name: str) -> str:
+    """Return the preferred name, or the name with a numeric suffix, that no value of the graph has."""
+    used_names = {value.name for value in graph.inputs}
+    if isinstance(graph, ir.Graph):
+        used_names.update(graph.initializers)
+    used_names.update(output.name for node in graph for output in node.outputs)
+    name = preferred_name
+    counter = 0
+    while name in used_names:
+        counter += 1
+        name = f"{preferred_name}_{counter}"
+    return name
+
+
 def _alias_multi_used_outputs(graph_like: ir.Graph | ir.Function) -> bool:
     """Insert Identity nodes for values that appear in the graph output list multiple times."""
     modified = False
@@ -87,8 +101,7 @@ def _alias_multi_used_outputs(graph_like: ir.Graph | ir.Function) -> bool:
             identity_output = identity_node.outputs[0]
 
             # Copy metadata from the original output
-            # TODO: Use a better unique naming strategy if needed
-            identity_output.name = f"{output.name}_alias_{i}"
+            identity_output.name = _unique_value_name(graph, f"{output.name}_alias_{i}")
             identity_output.shape = output.shape
             identity_output.type = output.type
             identity_output.metadata_props.update(output.metadata_props)
@@ -130,8 +143,7 @@ def _alias_direct_outputs(graph_like: ir.Graph | ir.Function) -> bool:
             identity_output.doc_string = output.doc_string
 
             # Create a new name for the old output
-            # TODO: Use a better unique naming strategy if needed
-            output.name = f"{output.name}_orig"
+            output.name = _unique_value_name(graph, f"{output.name}_orig")
 
             # Add the node to the graph
             graph.append(identity_node)
